@@ -52,10 +52,10 @@ def generate(seed, tier):
         if k < 0.3:
             cfg_i += 1
             tps = sorted(r.sample(range(1, N_SVC + 1), r.randrange(0, 4)))
-            # bad: one tracepoint the agent skips; unintelligible: the response decodes, but cannot be converted at all
-            # (a metric of an unknown type) - the last good configuration and its hash stay in force
+            # bad / odd_metric: one tracepoint the agent cannot interpret (unknown stage / a metric of a type it does not
+            # know) - it is skipped, the others of the response are installed
             ops.append({"op": "publish", "cfg": cfg_i, "tps": tps, "bad": r.random() < 0.15,
-                        "unintelligible": r.random() < 0.12})
+                        "odd_metric": r.random() < 0.12})
         elif k < 0.45 and regs < N_REG:
             regs += 1
             live.append(regs)
@@ -63,7 +63,8 @@ def generate(seed, tier):
         elif k < 0.55 and live:
             ops.append({"op": "unregister", "reg": live.pop(r.randrange(len(live)))})
         elif k < 0.75:
-            ops.append({"op": "fault", "kind": r.choice(("error", "error", "delay", "garbage")),
+            # odd-type: an answer that decodes, of a response type this client does not know (no hash, no tracepoints)
+            ops.append({"op": "fault", "kind": r.choice(("error", "error", "delay", "garbage", "odd-type")),
                         "delay": r.choice((0.5, 3.0, 12.0))})
         else:
             ops.append({"op": "sleep", "s": r.choice((0.0, 0.5, 4.0, 9.99, 10.0, 10.01, 25.0))})
@@ -112,8 +113,17 @@ def execute(s, ch):
                 args["stage"] = "no_such_stage"
             return svc.make_tp("svc%d" % i, p.basename, 1 + i, args, [])
 
+        odd = {"expect": None}
+
         def on_poll(idx, req):
             polls_seen["n"] += 1
+            if odd["expect"] is not None:
+                # the poll before this one was answered with something the agent cannot understand: it still stands
+                # where it stood (hash of the last good configuration), it has not been reset
+                want_hash, odd["expect"] = odd["expect"], None
+                if req.current_hash != want_hash[1] and req.current_hash == "" and want_hash[1] != "":
+                    viol.append(V("unintelligible-answer-reset-the-agent", "after an answer of unknown type the agent "
+                                  "reports hash %r; before it reported %r" % (req.current_hash, want_hash[1])))
             for h in list(poll_hooks):
                 poll_hooks.remove(h)
                 h()
@@ -123,6 +133,10 @@ def execute(s, ch):
                     k.fault("rpc_delay")
                     k.sleep(f["delay"])
                     return None
+                if f["kind"] == "odd-type":
+                    k.fault("unknown_response_type")
+                    odd["expect"] = (idx, req.current_hash)
+                    return {"kind": "raw", "bytes": svc.poll_pb2.PollResponse(ts_nanos=k.now_ns, response_type=2).SerializeToString()}
                 return {"kind": f["kind"]}
             return None
         svc.on_poll = on_poll
@@ -135,16 +149,10 @@ def execute(s, ch):
                          "jumpy": lambda idx, now: max(1, now + ((idx * 2654435761) % 7200 - 3600) * 10**9)}[clock]
         orig_reply = svc._poll_reply
 
-        unintelligible = [False]
-        bad_hashes = set()
-
         def poll_reply(req, now):
             data = orig_reply(req, now)
-            if req.current_hash != svc.current_hash and unintelligible[0]:
-                bad_hashes.add(svc.current_hash)
-                return data
             if req.current_hash != svc.current_hash:
-                good = [t.ID for t in svc.current_tps if t.args.get("stage") != "no_such_stage"]
+                good = [t.ID for t in svc.current_tps if t.args.get("stage") != "no_such_stage" and t.ID != "svcX"]
                 delivered.append((len(svc.polls), svc.current_hash, good))
             return data
         svc._poll_reply = poll_reply
@@ -204,14 +212,13 @@ def execute(s, ch):
                 if o.get("bad"):
                     tps.insert(len(tps) // 2, tp_proto(0, bad=True))
                     k.fault("bad_response")
-                if o.get("unintelligible"):
+                if o.get("odd_metric"):
                     from deepproto.proto.tracepoint.v1 import tracepoint_pb2 as tpb
                     bad_tp = svc.make_tp("svcX", p.basename, 1, {"fire_count": "-1", "fire_period": "0"}, [],
                                          [tpb.Metric(name="m_x", type=99)])
                     tps.insert(len(tps) // 2, bad_tp)
-                    k.fault("unintelligible_response")
+                    k.fault("bad_response")
                 svc.set_config(tps, "h%d" % o["cfg"])
-                unintelligible[0] = bool(o.get("unintelligible"))
                 k.log("publish", o["cfg"], o["tps"])
             elif o["op"] == "register":
                 def do_reg(o=o):
@@ -300,12 +307,7 @@ def execute(s, ch):
                 viol.append(V("reports-latest-hash-but-runs-other-configuration", "hash %s reported, service part "
                               "installed %s, configuration of that hash %s" % (
                                   last_hash, [a for a in active if a.startswith("svc")], exp_svc)))
-            for (_n, _t, h_, _m, _r) in svc.polls:
-                if h_ in bad_hashes:
-                    viol.append(V("reports-hash-of-unintelligible-response", "a poll reported %r, the hash of a response "
-                                  "the agent could not convert (it acts on %s)" % (h_, active)))
-                    break
-            if last_hash != svc.current_hash and not unintelligible[0]:
+            if last_hash != svc.current_hash:
                 viol.append(V("did-not-catch-up-with-service-hash", "reports %r, service has %r after 3 quiet intervals" % (
                     last_hash, svc.current_hash)))
         if polls_after - polls_before < 2:
